@@ -417,7 +417,11 @@ func execDraw(line string) (res h.Result) {
 	u8 := 1
 	if !utf8loc {
 		u8 = 0
-		emuOps = append([]string{"C c1"}, emuOps...) // in an 8-bit locale the bytes 0x80-0x9f are C1 controls
+		if strings.HasPrefix(charset, "ISO8859") || charset == "US-ASCII" {
+			// ISO 8859-x (and ASCII) terminals: the bytes 0x80-0x9f are C1 controls.  In other 8-bit charsets
+			// (KOI8-R, CP125x, …) they are graphic characters of the terminal's character set.
+			emuOps = append([]string{"C c1"}, emuOps...)
+		}
 	}
 	emuNow := func() (map[string]string, []emuCell, string) {
 		d := h.Ref(fmt.Sprintf("emu %d %d %d 1 acs:%s %s", w, hh, u8, acs, strings.Join(emuOps, "; ")))
@@ -896,11 +900,47 @@ func genDrawCP(g *h.Gen) {
 			g.Emit("draw %s 0 8 4 %s", tgt, strings.Join(ops, "; "))
 		}
 	}
+	// combining lists in UTF-8 and in 8-bit locales, including charmaps that answer an unencodable rune with the SUB
+	// byte 0x1A and no error (gdamore/encoding: US-ASCII, ISO8859-1, ISO8859-9) and ones that return an error
+	// (x/text: ISO8859-2, KOI8-R): an unencodable combining rune must be elided, never sent as a control byte
+	bases := []int{'e', 'a', 0xe9, 0x4e16, 0x2500, 0x3b1, 0x416}
+	// candidates; only marks the library's own width table calls zero-width are in the property's domain ("combining
+	// lists being limited to zero-width non-control marks"): go-runewidth v0.0.16 gives width 1 to U+FE0F, U+093E, U+05B0
+	var marks []int
+	for _, m := range []int{0x301, 0x308, 0x20dd, 0xfe0f, 0x200d, 0x93e, 0x1f3fd, 0x483, 0x5b0, 0x1ab0, 0x302, 0x36f} {
+		if runewidth.RuneWidth(rune(m)) == 0 {
+			marks = append(marks, m)
+		}
+	}
+	for _, tgt := range []string{"xterm-256color", "xterm-256color@ISO8859-1", "xterm-256color@US-ASCII", "xterm-256color@ISO8859-9",
+		"xterm-256color@ISO8859-2", "xterm-256color@KOI8-R", "vt100@ISO8859-1"} {
+		var ops []string
+		k := 0
+		flush := func() {
+			if len(ops) > 0 {
+				g.Emit("draw %s 0 8 4 %s", tgt, strings.Join(append(ops, "W"), "; "))
+			}
+			ops, k = nil, 0
+		}
+		for bi, b := range bases {
+			for mi, m := range marks {
+				comb := fmt.Sprintf("%d", m)
+				if (bi+mi)%3 == 0 {
+					comb = fmt.Sprintf("%d,%d", m, marks[(mi+1)%len(marks)])
+				}
+				ops = append(ops, fmt.Sprintf("S %d %d %d %s 0,0,0,0,0,-,-", []int{0, 3, 6}[k%3], k/3, b, comb))
+				if k++; k == 12 {
+					flush()
+				}
+			}
+		}
+		flush()
+	}
 }
 
 func init() {
 	h.Register(&h.Engine{Name: "drawcp",
-		Rule: "every code point (quick: all below U+3000, every 61st above, boundary values; thorough: all 0x110000) and out-of-range rune values as primary cell content in the first, a middle and the last column; UTF-8 and ISO8859-1 locales; 12 runes per case; every case is non-trivial",
+		Rule: "every code point (quick: all below U+3000, every 61st above, boundary values; thorough: all 0x110000) and out-of-range rune values as primary cell content in the first, a middle and the last column; UTF-8 and ISO8859-1 locales; plus base x combining-mark cells in UTF-8 and five 8-bit charsets (SUB-answering and error-answering charmaps); 12 cells per case; every case is non-trivial",
 		Gen:  genDrawCP, Exec: execDraw})
 	h.Register(&h.Engine{Name: "draw",
 		Rule: "draw histories (4-36 ops) on a real terminfo screen over a fake tty, every ECMA-family entry, direct colour on/off, sizes 2..7 x 1..4; distinct = distinct line; non-trivial = at least one in-range SetContent",
